@@ -2,8 +2,10 @@ package checks
 
 import (
 	"bytes"
+	"encoding/hex"
 	"fmt"
 
+	"free5gclib/CommonConsumerTestData/UDM/TestGenAuthData"
 	"free5gclib/milenage"
 
 	"vh/fw"
@@ -18,7 +20,7 @@ func init() {
 		Level: "exploration",
 		Rule: "case = (K, OP, RAND, SQN_net, SQN_ue, AMF) with SQN pairs drawn from {equal, +-1, differing only in octet i (i by index), random}; each case compares F1, F2345, GenerateOPC, MilenageGenerate with ref/sec, " +
 			"runs Milenage_check on the valid AUTN and on single-bit corruptions of every AUTN bit (all 128 in thorough, 32 sampled in quick) plus single-octet corruptions, " +
-			"and on stale SQNs feeds the AUTS to Milenage_auts, also with every AUTS bit corrupted. distinct = hash(inputs); all cases non-trivial",
+			"and on stale SQNs feeds the AUTS to Milenage_auts, also with every AUTS bit corrupted; case 0 is the TS 35.208 set recorded in the anchored test-data file (recorded outputs = library = reference, field by field). distinct = hash(inputs); all cases non-trivial",
 		Assumptions: []string{
 			"SQN comparison is the unsigned 48-bit integer order; a stale SQN with a bad MAC may be reported either as failure or as resynchronisation",
 			"ref/sec Milenage self-tested against TS 35.207/208 sets 1-3 at start",
@@ -39,7 +41,62 @@ var c15K, c15OP, c15RAND [16]byte
 
 func sqnLess(a, b []byte) bool { return bytes.Compare(a, b) < 0 }
 
+// c15Anchored: the TS 35.208 test set recorded in the repository (the second file the property is anchored in) is one more
+// input: the library's outputs for the recorded K / OP / RAND / SQN / AMF, the independent implementation's, and the
+// outputs recorded next to them must be one and the same.
+func c15Anchored() (o fw.Outcome) {
+	ts := TestGenAuthData.MilenageTestSet19
+	o.Input = fmt.Sprintf("recorded test set: %+v", ts)
+	o.Digest, o.Nontrivial = fw.HashS("anchored-set", fmt.Sprintf("%+v", ts)), true
+	o.Tag("anchored-test-set")
+	hx := func(name, s string, n int) []byte {
+		b, err := hex.DecodeString(s)
+		if (err != nil || len(b) != n) && !o.Failed() {
+			o.Fail("anchored-test-set:"+name, "recorded %s %q is not %d octets of hexadecimal", name, s, n)
+		}
+		return b
+	}
+	k, rnd, sqn, amf, op := hx("K", ts.K, 16), hx("RAND", ts.RAND, 16), hx("SQN", ts.SQN, 6), hx("AMF", ts.AMF, 2), hx("OP", ts.OP, 16)
+	rec := map[string][]byte{"OPC": hx("OPC", ts.OPC, 16), "F1": hx("F1", ts.F1, 8), "F1star": hx("F1star", ts.F1star, 8), "F2": hx("F2", ts.F2, 8),
+		"F3": hx("F3", ts.F3, 16), "F4": hx("F4", ts.F4, 16), "F5": hx("F5", ts.F5, 6), "F5star": hx("F5star", ts.F5star, 6)}
+	if o.Failed() {
+		return
+	}
+	opc := sec.ComputeOPc(k, op)
+	macA, macS := sec.F1(k, opc, rnd, sqn, amf)
+	res, ck, ik, ak, akS := sec.F2345(k, opc, rnd)
+	ref := map[string][]byte{"OPC": opc, "F1": macA, "F1star": macS, "F2": res, "F3": ck, "F4": ik, "F5": ak, "F5star": akS}
+	lOpc, _ := milenage.GenerateOPC(k, op)
+	lA, lS := make([]byte, 8), make([]byte, 8)
+	milenage.F1(opc, k, rnd, sqn, amf, lA, lS)
+	lRes, lCk, lIk, lAk, lAkS := make([]byte, 8), make([]byte, 16), make([]byte, 16), make([]byte, 6), make([]byte, 6)
+	milenage.F2345(opc, k, rnd, lRes, lCk, lIk, lAk, lAkS)
+	lib := map[string][]byte{"OPC": lOpc, "F1": lA, "F1star": lS, "F2": lRes, "F3": lCk, "F4": lIk, "F5": lAk, "F5star": lAkS}
+	for _, name := range []string{"OPC", "F1", "F1star", "F2", "F3", "F4", "F5", "F5star"} {
+		if !bytes.Equal(rec[name], ref[name]) || !bytes.Equal(lib[name], ref[name]) {
+			o.Fail("anchored-test-set:"+name, "for the recorded inputs %s is %x in the recorded set, %x from the library, %x per TS 35.206", name, rec[name], lib[name], ref[name])
+			return
+		}
+		o.Count("anchored_fields_compared", 1)
+	}
+	// a resynchronisation token concealed with the recorded AK* carries the SQN it was built from
+	auts := make([]byte, 14)
+	for i := 0; i < 6; i++ {
+		auts[i] = sqn[i] ^ rec["F5star"][i]
+	}
+	_, s0 := sec.F1(k, opc, rnd, sqn, []byte{0, 0})
+	copy(auts[6:], s0)
+	out := make([]byte, 6)
+	if rr := milenage.Milenage_auts(opc, k, rnd, auts, out); rr != 0 || !bytes.Equal(out, sqn) {
+		o.Fail("anchored-test-set:AUTS", "AUTS built from the recorded SQN, AK* and f1* over AMF 0000 is answered %d with SQN %x (recorded %x)", rr, out, sqn)
+	}
+	return
+}
+
 func runC15(c *fw.Case) (o fw.Outcome) {
+	if c.Idx == 0 {
+		return c15Anchored()
+	}
 	r := c.R
 	// the caller's buffers for K, OP and RAND are re-used from case to case and overwritten in place, as a subscriber
 	// loader does: results must depend on the contents, not on the identity of the slices
